@@ -34,7 +34,7 @@ func init() {
 		"DESIGN.md §5 C01, §4.3",
 		[]string{"fidelity of deepClone (a YAML round trip) on exotic strings", "type-sensitive == across formats (C04)", "chains of 3-4 layers beyond the induction (repeated application of the same entry)"},
 		[]string{"Trees are acyclic and layer sources are private copies (rules C02.indep / C08.acyclic)."},
-		ruleC01Kind, ruleC01Map, ruleC01List, ruleC01Match, ruleDeepClone, ruleMarkerHelpers("C01.marker"), ruleMergeSourcesPrivate("C01.indep"))
+		ruleC01Kind, ruleC01Map, ruleC01List, ruleC01Match, ruleDeepClone, ruleMarkerHelpers("C01.marker"), rulePopListMarker("C01.popmarker"), ruleMergeSourcesPrivate("C01.indep"), ruleSmallContracts("C01.helper", "pophelpers"))
 
 	mk("C02", "Stream layering targets the right documents and treats each independently",
 		"path-effect summaries of MergeDocument (target selection table), ownership analysis of every call into the merge family (sources must be private deep copies), census of the writers of Parser.docs / Document.Parents",
@@ -82,7 +82,7 @@ func init() {
 		"DESIGN.md §5 C07",
 		[]string{"whether an empty upper list 'actually overrides' a $required list entry (the list marker is shown to be removed only by a child list; the map-valued marker follows the ordinary merge table, C01)"},
 		nil,
-		ruleOutputGate("C07"), ruleValidate("C07"), ruleMarshalRoute, ruleC07Encode("C07.encode"), ruleC07Required, ruleStripMarker("C07.strip"))
+		ruleOutputGate("C07"), ruleValidate("C07"), ruleMarshalRoute, ruleC07Encode("C07.encode"), ruleC07Required, ruleStripMarker("C07.strip"), ruleMergeSourcesPrivate("C07.indep"), ruleC01List, ruleDroppedErrors)
 
 	mk("C08", "Every invocation terminates with complete output or a reported error",
 		"panic-site audit over SSA (unchecked type assertions, compiler-unproven bounds checks matched to discharge patterns, explicit panics, division, nil-map writes), per-call-site classification of every cycle of a closure-aware call graph (depth-guarded / visited-guarded / structural on acyclic data), dropped-error audit, path summaries of the mains (failed step => stderr + non-zero exit, stdout written last)",
@@ -106,7 +106,7 @@ func init() {
 		"DESIGN.md §5 C10",
 		[]string{"keys containing dots", "interaction of references with $output: false templates beyond the phase order"},
 		nil,
-		ruleC10Phase, ruleC10Dispatch, ruleC10Lookup, ruleC10ListRef, ruleC10Universe, ruleReferencesReadOnly, ruleC01Match, ruleSmallContracts("C10.helper", "matchdoc", "getcopy"))
+		ruleC10Phase, ruleC10Dispatch, ruleC10Lookup, ruleC10ListRef, ruleC10Universe, ruleReferencesReadOnly, ruleC01Match, ruleSmallContracts("C10.helper", "matchdoc", "getcopy", "pophelpers"), ruleDroppedErrors)
 
 	mk("C11", "$output selects exactly the marked subtrees and hides exactly the excluded ones",
 		"path-effect summaries of findOutputs, filterOutput and outputDocument against the selection / hiding tables",
@@ -114,7 +114,7 @@ func init() {
 		"DESIGN.md §5 C11",
 		[]string{"interaction with references copied out of hidden trees"},
 		nil,
-		ruleC11Select, ruleC11Hide, ruleOutputGate("C11"), ruleMarkerHelpers("C11.marker"), ruleOutputFresh, ruleYamlScalars("C11.scalars"))
+		ruleC11Select, ruleC11Hide, ruleOutputGate("C11"), ruleMarkerHelpers("C11.marker"), rulePopListMarker("C11.popmarker"), ruleSmallContracts("C11.helper", "pophelpers"), ruleOutputFresh, ruleYamlScalars("C11.scalars"))
 
 	mk("C12", "$repeat expands to exactly n indexed copies (cartesian product for named counts)",
 		"induction-variable analysis of the three counted loops (0 <= i < n, step 1, i bound on a per-iteration clone of the context), lockstep analysis of the documents/contexts slices, path-effect summaries of repeatDoc*, process2RepeatObj*",
@@ -122,7 +122,7 @@ func init() {
 		"DESIGN.md §5 C12",
 		[]string{"equality with the hand-expanded document (needs C13 on values)"},
 		nil,
-		ruleC12Loops, ruleC12Docs, ruleCloneContract("C12.copy"), ruleC13Vars)
+		ruleC12Loops, ruleC12Docs, ruleCloneContract("C12.copy"), ruleC13Vars, ruleSmallContracts("C12.helper", "pophelpers"))
 
 	mk("C13", "Interpolation and $env substitute exactly the referenced values",
 		"path-effect summaries of process2String, the interpolation callback (captured error cell), getWithVar, GetVar, envVars; census of the interpolation pattern literal",
@@ -130,7 +130,7 @@ func init() {
 		"DESIGN.md §5 C13",
 		[]string{"%v formatting of non-string values", "literal } and : inside templates"},
 		nil,
-		ruleC13, ruleC13Vars, ruleC12Loops, ruleMemoised("C13.memo"))
+		ruleC13, ruleC13Vars, ruleC12Loops, ruleMemoised("C13.memo"), ruleDroppedErrors, ruleSmallContracts("C13.helper", "pophelpers"))
 
 	mk("C14", "$encode produces the named standard encodings and $decode inverts them",
 		"path-effect summaries of process2EncodeString per transform branch (callee and operand of the standard-library implementation), sibling cross-check of argument-count guards, left-to-right fold of process2EncodeAny, $decode type table and must-pass-through normalize",
@@ -138,7 +138,7 @@ func init() {
 		"DESIGN.md §5 C14",
 		[]string{"exact bytes produced by the format encoders", "tolist value formatting (%v)"},
 		nil,
-		ruleC14, ruleC14Decode, ruleC07Encode("C14.validate"), ruleC04Normalised("C14.inverse"), ruleC04Float, ruleYamlScalars("C14.scalars"))
+		ruleC14, ruleC14Decode, ruleC07Encode("C14.validate"), ruleC04Normalised("C14.inverse"), ruleC04Float, ruleYamlScalars("C14.scalars"), ruleDroppedErrors, ruleSmallContracts("C14.helper", "pophelpers"))
 
 	mk("C15", "bkld round trip: base + bkld(base, target) evaluates to target",
 		"path-effect summaries of diff/diffDoc against the diff table; composition check diff-emits-wholesale x merge-accepts over kind pairs; nil-diff-implies-equal-sequence check; vocabulary agreement of emitted directives with the evaluator",
@@ -146,7 +146,7 @@ func init() {
 		"DESIGN.md §5 C15",
 		[]string{"over-deletion by partial $delete patterns", "multiset/ordering semantics of list diffs beyond the nil case", "the round trip in general"},
 		nil,
-		ruleC15Table, ruleC15Seq, ruleC15Compose, ruleC15Dir, ruleMarkerVocabulary("C15.vocab", map[string][]string{"cmd/bkld": {"$delete", "$replace", "$match"}}), ruleC01List, ruleC04Census, ruleC04Canon)
+		ruleC15Table, ruleC15Seq, ruleC15Compose, ruleC15Dir, ruleMarkerVocabulary("C15.vocab", map[string][]string{"cmd/bkld": {"$delete", "$replace", "$match"}}), ruleC01List, ruleC01Match, ruleC04Census, ruleC04Canon)
 
 	mk("C16", "bkli yields the maximal common base, and the migrate workflow is lossless",
 		"path-effect summaries of intersect against the intersection table, may-be-nil analysis of every container boxed into the result, per-element accumulation (loop-exit analysis), left fold in main, marker literal agreement with the validator",
@@ -162,7 +162,7 @@ func init() {
 		"DESIGN.md §5 C17",
 		[]string{"nothing further: idempotence follows from the table"},
 		nil,
-		ruleC17Table, ruleMarkerVocabulary("C17.marker", map[string][]string{"cmd/bklr": {"$required"}}), ruleValidate("C17"), ruleStripMarker("C17.strip"), ruleC17Main, ruleTypedNil("C17.typednil"), ruleC03)
+		ruleC17Table, ruleMarkerVocabulary("C17.marker", map[string][]string{"cmd/bklr": {"$required"}}), ruleValidate("C17"), ruleStripMarker("C17.strip"), ruleC17Main, ruleTypedNil("C17.typednil"), ruleC03, ruleC01List)
 
 	mk("C18", "With a root directory set, nothing outside it is ever read",
 		"who-may-call census of file-content APIs (only (*os.Root).Open on the parser's root and stdin), frozen list of metadata probes, writer census and path summary of SetRoot (roots only narrow), data-flow of the path handed to root.Open, dominance of SetRoot over loading in cmd/bkl.main",
